@@ -55,8 +55,9 @@ Definition root_props r :=
   match r with RObject _ _ _ _ ps => ps | ROneof _ _ ps => ps | REnum _ _ _ _ _ => [] end.
 
 (* an entry of Package.Schemas: a RefSchema whose To is nil (placeholder) or linked.
-   The linked root remembers the package its rootSchema.pkg names (ref.check compares them). *)
-Inductive entry := Placeholder | Linked (pkg : str) (r : root).
+   (The linked root's own package and name always equal the key: both come from
+   splitDescriptorName of the same descriptor, so ref.check never fails.) *)
+Inductive entry := Placeholder | Linked (r : root).
 
 (* the schema set: (package, name) -> entry, newest first *)
 Definition sset := list (ref * entry).
